@@ -83,6 +83,46 @@ def run(ck):
                 cut = rng.range(2, len(seqs) - 2) if len(seqs) > 4 else 2
                 pres.append(('split-2', [gen.fasta(names[:cut], seqs[:cut]), gen.fasta(names[cut:], seqs[cut:])]))
                 pres.append(('split-with-empty-file', [gen.fasta(names[:cut], seqs[:cut]), '', gen.fasta(names[cut:], seqs[cut:])]))
+            if k % 8 == 5:
+                # boundary presentations aimed at the constants of the readers: the 50-sequence sample once used by
+                # detect_aligned, the 512-slot sequence array and 512-byte sequence buffers (resize), 4 KiB lines
+                alpha = gen.DNA if kind == 'dna' else gen.PROT
+                tail = 'WKW' if kind == 'protein' else ''
+                sub = (k // 8) % 4
+                if sub == 0:
+                    n = rng.choice([51, 52, 60, 80])
+                    root = gen.rand_seq(rng, alpha, rng.range(10, 20))
+                    seqs = [gen.mutate(rng, root, alpha, 10, 8) + tail for _ in range(n)]
+                    names = ['b%d' % i for i in range(n)]
+                    late = gapify(rng, seqs[50:], 0.3)
+                    pres = [('fasta-ref', [gen.fasta(names, seqs)]),
+                            ('late-gaps-after-50', [gen.fasta(names, seqs[:50] + late)]),
+                            ('late-gaps-second-file', [gen.fasta(names[:50], seqs[:50]), gen.fasta(names[50:], late)]),
+                            ('late-stop-marker', [gen.fasta(names, seqs[:-1] + [seqs[-1] + '*'])])]
+                elif sub == 1:
+                    n = rng.choice([511, 512, 513, 530])
+                    seqs = [gen.rand_seq(rng, alpha, rng.range(3, 6)) + tail for _ in range(n)]
+                    names = ['m%d' % i for i in range(n)]
+                    rows = gapify(rng, seqs, 0.3)
+                    pres = [('fasta-ref', [gen.fasta(names, seqs)]), ('many-clustal', [render_clu(names, rows, 60, 0)]),
+                            ('many-msf', [render_msf(names, rows, 50, kind == 'protein')]), ('many-afa', [gen.fasta(names, rows)])]
+                elif sub == 2:
+                    Ls = [rng.choice([511, 512, 513, 1023, 1024, 1025]) for _ in range(3)]
+                    seqs = [gen.rand_seq(rng, alpha, L) + tail for L in Ls]
+                    names = ['len%d' % i for i in range(3)]
+                    rows = gapify(rng, seqs, 0.2)
+                    pres = [('fasta-ref', [gen.fasta(names, seqs)]), ('long-clustal', [render_clu(names, rows, 60, 0)]),
+                            ('long-msf', [render_msf(names, rows, 50, kind == 'protein')]), ('long-oneline', [gen.fasta(names, seqs, 100000)])]
+                else:
+                    n = 4
+                    root = gen.rand_seq(rng, alpha, rng.choice([4090, 4200, 5000]))
+                    seqs = [gen.mutate(rng, root, alpha, 3, 1) + tail for _ in range(n)]
+                    names = ['w%d' % i for i in range(n)]
+                    rows = gapify(rng, seqs, 0.1)
+                    W = len(rows[0])
+                    pres = [('fasta-ref', [gen.fasta(names, seqs)]), ('wide-clustal-unwrapped', [render_clu(names, rows, W, 0)]),
+                            ('wide-msf-unwrapped', [render_msf(names, rows, W, kind == 'protein')]),
+                            ('wide-afa-unwrapped', [gen.fasta(names, rows, W)]), ('wide-fasta-4095', [gen.fasta(names, seqs, 4095)])]
             ty = rng.choice([0, 1, 2, 5] if kind == 'dna' else [3, 4, 5])
             ids = []
             for pname, texts in pres:
